@@ -10,6 +10,9 @@ PROJECTS = {
                        'class C:\n    def m(self): pass\n    def m(self): pass\n'},
     'summary_names': {'classIndex.py': 'class A: pass\n', 'other.py': 'x = 1\n'},
     'index_root': {'index.py': 'class A: pass\n', 'other.py': 'x = 1\n'},
+    # a docstring with a same-class reference, inherited by an overriding method of a subclass (known finding KF-C11-inherited-docstring-context)
+    'inherited_links': {'ih/__init__.py': 'class Base:\n    def a(self):\n        """See L{b}.\n\n        More about L{b} and L{Base.b}.\n        """\n'
+                                          '    def b(self):\n        "doc b"\nclass Sub(Base):\n    def a(self):\n        pass\n'},
     'two_roots': {'alpha.py': '"""Alpha. See L{beta.B}."""\nclass A: pass\n', 'beta.py': 'class B:\n    def m(self): pass\n'},
 }
 
@@ -19,6 +22,7 @@ def _cases(tier, seed):
         yield {'privacy': k, 'project': 'B'}
     yield {'privacy': 0, 'project': 'dups'}
     yield {'privacy': 0, 'project': 'two_roots'}
+    yield {'privacy': 0, 'project': 'inherited_links'}
     yield {'privacy': 0, 'project': 'summary_names'}
     yield {'privacy': 0, 'project': 'index_root'}
     yield {'privacy': 0, 'project': 'two_roots', 'rules': ['HIDDEN:beta']}
